@@ -106,7 +106,7 @@ def validate_and_judge(v, prop, jobs, wd, also_props=()):
         j = jb[x["run"]]
         steps = [e["step"] for e in runs[x["run"]] if e["ev"] == "step"]
         rj = dict(j, steps=steps)
-        key = f"{x['prop']}: {x['what'].split(':')[0]}"
+        key = f"{x['prop']}: {x['what'].split(': ')[0]}"
         v.violation(key, {"kind": "server-job", "job": rj, "actor": [x["c"], x["p"]], "monitor_line": x["line"]},
                     f"run {x['run']} actor (c={x['c']},p={x['p']}): {x['what']}")
         nviol += 1
@@ -250,6 +250,7 @@ def scenarios(prop, tier, rng):
         out.append(("n2fno", scen(n=2, rpcfail=1, out=[False, True], leader=0)))
         out.append(("n2k2", scen(n=2, comps=2, leader=[0, 0], conc=[1, 1], rpcfail=1)))
         out.append(("n3f", scen(n=3, rpcfail=1, leader=1, consts=[True, True, False], out=[True, False, True])))
+        out.append(("n2c", scen(n=2, cancel=1, out=[False, True])))
         if not q:
             out.append(("n2k3", scen(n=2, comps=3, leader=[0, 0, 1], conc=[2, 1], rpcfail=1)))
             out.append(("n2k2c", scen(n=2, comps=2, leader=[0, 0], conc=[1, 1], rpcfail=1, cancel=1)))
@@ -312,6 +313,10 @@ def check_server(prop, tier, replay):
             jobs.append(mkjob(f"{prop}.{name}.t{bi}", sc, rng, steps=b["steps"], seed=bi, expect=expect))
             nscript += 1
         # systematic injection points along a base run
+        if prop == "C17" and sc["faults"]["cancel"] > 0 and len(sc["pol"]) == 1:
+            base = base_run(wd, sc, rng, v.seed + si, f"base{si}")
+            for ci, steps in enumerate(cancel_points(base, sc, rng, 40 if q else 0)):
+                jobs.append(mkjob(f"{prop}.{name}.c{ci}", sc, rng, steps=steps, seed=rng.randrange(1 << 30)))
         if prop == "C15":
             base = base_run(wd, sc, rng, v.seed + si, f"base{si}")
             for ci, steps in enumerate(cancel_points(base, sc, rng, 40 if q else 0)):
